@@ -21,6 +21,7 @@ of that it has a drop function (`QT`).  This file establishes that hypothesis at
   `removeHandler_dead`, `removeHandler_users`) and only then the registry entry (`TopQ.remove_tevs` / `remove_gevs`), with an
   empty queue (`assertQueueEmpty_tq`, `InvV7.sendGlobal_qe`, `InvV7.removeHandler_qe`). -/
 namespace Evenio
+namespace EvLedger
 open InvV3 (IdxLive EvLive)
 
 /-! ## the registry invariant of conservation -/
@@ -54,7 +55,7 @@ theorem tw_init : TW {} where
 
 
 /-- the handler table up to fetcher caches -/
-def World.hreg (w : World) : Key → Option HInfo := fun k => (w.handlers.get k).map HInfo.core
+def _root_.Evenio.World.hreg (w : World) : Key → Option HInfo := fun k => (w.handlers.get k).map HInfo.core
 
 theorem hk_hreg (w : World) : HK w.hreg w := fun _ => rfl
 
@@ -927,4 +928,5 @@ theorem execOp_tq (op : Op) : KP (TopQ a Z) (execOp op) := by
   | _ => tq_walk
 
 end walk
+end EvLedger
 end Evenio
